@@ -47,6 +47,7 @@ Json RunResult::toJson() const {
   for (auto v : decisions) d.push(Json::num(v));
   j.set("decisions", d);
   j.set("sample", sample);
+  if (patch.kind == Json::Obj) j.set("patch", patch);
   return j;
 }
 
@@ -73,6 +74,7 @@ RunResult RunResult::fromJson(const Json& j) {
   for (auto& e : j.geta("incidental")) r.incidental.push_back(e.s);
   for (auto& e : j.geta("decisions")) r.decisions.push_back((uint32_t)e.n);
   r.sample = j.gets("sample");
+  if (auto* p = j.find("patch")) r.patch = *p;
   return r;
 }
 
@@ -259,6 +261,8 @@ struct Shrinker {
 
   void adopt(const Json& cand, const RunResult& r) {
     best = cand;
+    if (r.patch.kind == Json::Obj)
+      for (auto& e : r.patch.o) best.set(e.first, e.second);
     // keep the decision vector actually used, so that replay is exact
     if (!r.decisions.empty() || best.find("decisions")) {
       Json d = Json::arr();
@@ -455,6 +459,8 @@ int cmdWorker(int argc, char** argv) {
   };
   auto candidate = [&](const RunResult& r) {
     Json cand = curPlan;
+    if (r.patch.kind == Json::Obj)
+      for (auto& e : r.patch.o) cand.set(e.first, e.second);
     if (!r.decisions.empty()) {
       Json d = Json::arr();
       for (auto v : r.decisions) d.push(Json::num(v));
